@@ -36,15 +36,15 @@ func init() {
 			"Not decided: determinism of the standard library and protobuf runtime; time.LoadLocation depends on the host zone database.",
 		Assumptions: []string{"distinct map keys select distinct per-key objects (values of the id-keyed accumulators are allocated one per key)"},
 		Rules: []Rule{
-			{Name: "G6", Doc: "map-range order must not reach results", MinInstances: 5, Run: func(c *Ctx) {
+			{Name: "G6", Doc: "map-range order must not reach results", MinInstances: 3, Run: func(c *Ctx) {
 				fns, _ := c.scope(c.allParseRoots(), scopeOpts{})
 				runG6(c, fns)
 			}},
-			{Name: "G7", Doc: "no write to memory that outlives the call or to the input bytes (E5 taint)", MinInstances: 50, Run: func(c *Ctx) {
+			{Name: "G7", Doc: "no write to memory that outlives the call or to the input bytes (E5 taint)", MinInstances: 35, Run: func(c *Ctx) {
 				fns, reach := c.scope(c.allParseRoots(), scopeOpts{})
 				runG7(c, "G7", parseTaintRoots(c), fns, reach, TOpts|TGlobal|TContent, "this memory outlives the parse (or is the caller's input): a later parse can observe the write")
 			}},
-			{Name: "G8", Doc: "no path to clock/randomness/environment", MinInstances: 2, Run: func(c *Ctx) {
+			{Name: "G8", Doc: "no path to clock/randomness/environment", MinInstances: 1, Run: func(c *Ctx) {
 				runG8(c, c.anchors(parseEntrySpecs...))
 			}},
 		},
@@ -57,7 +57,7 @@ func init() {
 			"Not decided: races inside the standard library / protobuf runtime (documented concurrency-safe entry points are listed in externals.go).",
 		Assumptions: []string{"callers do not mutate the options value, the input slice or a result concurrently with a call", "hash.Hash arguments are not shared between concurrent Hash calls (designated output parameter)"},
 		Rules: []Rule{
-			{Name: "G7", Doc: "no write to shared memory (E5 taint)", MinInstances: 50, Run: func(c *Ctx) {
+			{Name: "G7", Doc: "no write to shared memory (E5 taint)", MinInstances: 35, Run: func(c *Ctx) {
 				roots := c.allParseRoots()
 				roots = append(roots, c.anchors(accessorSpecs...)...)
 				roots = append(roots, c.anchors("journal:(*Journal).ExportToCsv")...)
@@ -66,7 +66,7 @@ func init() {
 				troots := append(parseTaintRoots(c), accessorTaintRoots(c)...)
 				runG7(c, "G7", troots, fns, reach, TOpts|TGlobal|TContent|TRecv, "another goroutine may hold the same memory: unsynchronised write = data race")
 			}},
-			{Name: "G8", Doc: "no path to clock/randomness/environment", MinInstances: 2, Run: func(c *Ctx) {
+			{Name: "G8", Doc: "no path to clock/randomness/environment", MinInstances: 1, Run: func(c *Ctx) {
 				runG8(c, c.anchors(parseEntrySpecs...))
 			}},
 		},
